@@ -7,17 +7,20 @@ sys.path.insert(0, '/verif')
 from sa.selftest import check_variant
 PROPS = ["C%02d" % i for i in range(1, 21)]
 res = {}
-for l in open('/tmp/vm_results.jsonl'):
+SRC = sys.argv[1] if len(sys.argv) > 1 else '/tmp/mut'
+TAG = sys.argv[2] if len(sys.argv) > 2 else 'm'
+RES = sys.argv[3] if len(sys.argv) > 3 else '/tmp/vm_results.jsonl'
+for l in open(RES):
     l = l.strip()
     if l.startswith('{'):
         d = json.loads(l); res[d['mutant']] = d
 jobs = []
 for p in PROPS:
     for k in (1, 2, 3):
-        src = '/tmp/mut/%s/m%d' % (p, k)
+        src = '%s/%s/m%d' % (SRC, p, k)
         if not os.path.exists(src + '/patch.diff'):
             continue
-        dst = '/verif/seeded/%s-m%d' % (p, k)
+        dst = '/verif/seeded/%s-%s%d' % (p, TAG, k)
         os.makedirs(dst, exist_ok=True)
         shutil.copy(src + '/patch.diff', dst + '/patch.diff')
         shutil.copy(src + '/demo.py', dst + '/demo.py')
